@@ -20,7 +20,8 @@ SAFE_BUILTINS = {"len": len, "min": min, "max": max, "abs": abs, "int": int, "bo
 SAFE_METHODS = {"lower", "upper", "index", "get", "startswith", "endswith", "encode", "decode", "split", "strip",
                 "keys", "values", "items", "count", "join", "find", "hex", "bit_length", "copy", "issubset", "union",
                 "intersection", "add", "discard", "append", "pop", "remove", "extend", "update", "setdefault", "clear", "splitlines", "rstrip", "lstrip",
-                "replace", "isdigit", "partition", "rpartition", "rsplit", "insert"}
+                "replace", "isdigit", "partition", "rpartition", "rsplit", "insert", "difference", "issuperset", "isdisjoint", "symmetric_difference", "title", "capitalize",
+                "isalnum", "isalpha", "zfill", "format", "sort", "reverse", "popitem", "difference_update", "intersection_update", "casefold", "removeprefix", "removesuffix", "center", "ljust", "rjust"}
 
 
 _EXC_PARENTS = {"UnicodeDecodeError": ("UnicodeError", "ValueError", "Exception"), "UnicodeEncodeError": ("UnicodeError", "ValueError", "Exception"),
@@ -71,6 +72,12 @@ class Evaluator:
                 if r and r[0] == "const":
                     mm, nn = r[1]
                     if nn in mm.assigns and nn.isupper():
+                        cache = getattr(self.call_hook, "const_cache", None)
+                        if cache is not None:
+                            # module-level tables are objects with identity (code may mutate them at import time or later): evaluated once per hook
+                            if (mm.name, nn) not in cache:
+                                cache[(mm.name, nn)] = Evaluator(self.prog, mm, None, {}, self.call_hook).ev(mm.assigns[nn])
+                            return cache[(mm.name, nn)]
                         return Evaluator(self.prog, mm, None, {}, self.call_hook).ev(mm.assigns[nn])
                 rs = getattr(self.call_hook, "resolve", None)
                 if rs is not None and r is not None:
@@ -206,6 +213,8 @@ class Evaluator:
     def _bind(self, t: ast.AST, v: Any) -> None:
         if isinstance(t, ast.Name):
             self.env[t.id] = v
+            if t.id in getattr(self, "nonlocals", ()) and getattr(self, "parent_env", None) is not None:
+                self.parent_env[t.id] = v
         elif isinstance(t, (ast.Tuple, ast.List)):
             if isinstance(v, (list, tuple)) and len(v) != len(t.elts) and not any(isinstance(x, ast.Starred) for x in t.elts):
                 raise Raised("ValueError", t)
@@ -266,7 +275,11 @@ class Evaluator:
         if isinstance(f, ast.Name) and isinstance(self.env.get(f.id), _Closure):
             clo = self.env[f.id]
             sub = Evaluator(self.prog, self.module, self.cls, self.env, self.call_hook)
+            sub.parent_env = self.env
             params = [p.arg for p in clo.node.args.args]
+            defaults = clo.node.args.defaults
+            for p, d in zip(params[len(params) - len(defaults):], defaults):
+                sub.env[p] = self.ev(d)
             for p, a in zip(params, e.args):
                 sub.env[p] = self.ev(a)
             for k in e.keywords:
@@ -276,6 +289,34 @@ class Evaluator:
             except Ret as r:
                 return r.value
             return None
+        # next(iterable[, default]) / iter(x) / map(fn, xs) / filter(fn, xs): iterables are materialised lists here
+        if isinstance(f, ast.Name) and f.id in ("next", "iter", "map", "filter") and f.id not in self.module.assigns and f.id not in self.env:
+            if f.id == "iter" and len(e.args) == 1:
+                return list(self.ev(e.args[0]))
+            if f.id == "next" and e.args:
+                seq = self.ev(e.args[0])
+                seq = list(seq) if not isinstance(seq, list) else seq
+                if seq:
+                    return seq[0]
+                if len(e.args) > 1:
+                    return self.ev(e.args[1])
+                raise Raised("StopIteration", e)
+            if f.id in ("map", "filter") and len(e.args) == 2:
+                fn, seq = e.args[0], list(self.ev(e.args[1]))
+                out = []
+                for x in seq:
+                    if isinstance(fn, ast.Lambda):
+                        sub = Evaluator(self.prog, self.module, self.cls, dict(self.env), self.call_hook)
+                        sub.env[fn.args.args[0].arg] = x
+                        r = sub.ev(fn.body)
+                    else:
+                        self.env["__hof_arg"] = x
+                        r = self.ev(ast.Call(func=fn, args=[ast.Name(id="__hof_arg", ctx=ast.Load())], keywords=[]))
+                    if f.id == "map":
+                        out.append(r)
+                    elif r:
+                        out.append(x)
+                return out
         if isinstance(f, ast.Name) and f.id in SAFE_BUILTINS and f.id not in self.module.assigns:
             if f.id == "isinstance":
                 raise Unknown("isinstance")
@@ -429,6 +470,9 @@ class Evaluator:
         if isinstance(s, ast.Assert):
             if not self.ev(s.test):
                 raise Raised("AssertionError", s)
+            return
+        if isinstance(s, (ast.Nonlocal, ast.Global)):
+            self.nonlocals = set(getattr(self, "nonlocals", ())) | set(s.names)   # writes to these names go to the enclosing call's environment as well
             return
         if isinstance(s, ast.Pass):
             return
